@@ -992,22 +992,25 @@ class Interp:
         pre_heap = ctx.snapshot()
         pre_ghost = dict(ctx.ghost)
         pre = ContractView(ctx, pre_heap, ctx.heap, bound, pre_ghost)
+        short = what.split('.')[-1]
         for cid, f in con.requires(pre):
-            ctx.oblige('pre@call.%s.%s' % (what.split('.')[-1], cid), f, 'pre@call', what)
+            ctx.oblige('pre@call.%s.%s' % (short, cid), f, 'pre@call', what)
         outs = con.outcomes(pre)
         k = ctx.choose(len(outs), 'outcome:' + what)
         out = outs[k]
         for (view, field, ty) in con.modifies(pre, out):
             self.havoc_field(view, field, ty, what)
-        con.effects(pre, self, out)
         result, raised, excv = VNone(), None, None
         if out.kind == 'ret':
-            result = out.make(ctx, what) if out.make else ctx.fresh(out.ty, what.split('.')[-1] + '.ret')
+            result = out.make(self, pre) if out.make else ctx.fresh(out.ty, short + '.ret')
         else:
             raised = out.exc
             excv = ctx.new_exc(out.exc, [])
         post = ContractView(ctx, pre_heap, ctx.heap, bound, pre_ghost, result=to_spec(ctx, ctx.heap, result),
                             raised=raised, label=out.label, result_v=result, exc=excv)
+        post.what = short
+        post.interp = self
+        con.effects(post)
         for cid, f in con.ensures(post):
             ctx.assume(S._b(f) if not isinstance(f, bool) else f)
         if not ctx.feasible():
@@ -1313,7 +1316,8 @@ class Interp:
         for cid, f in spec.invariant(sv):
             ctx.oblige('%s.inv-init.%s' % (lid, cid), f, 'inv-init', lid)
         # havoc
-        for name, ty in spec.vars.items():
+        lvars = spec.vars(sv) if callable(spec.vars) else spec.vars
+        for name, ty in lvars.items():
             fr.locals[name] = ctx.fresh(ty, '%s.%s' % (lid, name))
         if ghost_i:
             fr.locals[ghost_i] = ctx.fresh(T.Int, lid + '.i')
@@ -1321,8 +1325,9 @@ class Interp:
         pre_sv.entry = sv.entry
         for (view, field, ty) in spec.modifies(pre_sv):
             self.havoc_field(view, field, ty, lid)
-        for gname, ty in getattr(spec, 'ghost', {}).items():
-            ctx.ghost[gname] = ctx.fresh(ty, '%s.g.%s' % (lid, gname))
+        gh = spec.ghost(pre_sv) if callable(getattr(spec, 'ghost', None)) else getattr(spec, 'ghost', {})
+        for gname, ty in gh.items():
+            ctx.ghost[gname] = to_spec(ctx, ctx.heap, ctx.fresh(ty, '%s.g.%s' % (lid, gname)))
         sv2 = StateView(ctx, fr)
         sv2.entry = sv.entry
         sv2.iter = iterable
@@ -1413,6 +1418,12 @@ class ContractView:
         self.exc = exc
         self.args_v = args
         self.trace = ctx.trace
+        self.what = ''
+        self.concrete = False
+
+    def draw(self, ty, hint):
+        """A fresh value of the given type (existential witness of an assumed contract)."""
+        return to_spec(self.ctx, self.ctx.heap, self.ctx.fresh(ty, '%s.%s' % (self.what, hint) if self.what else hint))
 
 
 def ast_load(target):
